@@ -102,8 +102,12 @@ type Case struct {
 	TreeSize uint64 `json:"tree_size"`
 	Root     HB     `json:"root,omitempty"`
 
-	// verifier key (fixture name) / key kind for NewSignatureVerifier
+	// verifier key (fixture name) / key kind for NewSignatureVerifier / function name (alias histories)
 	Key string `json:"key,omitempty"`
+
+	// alias histories: indices of the first and second input in the function's alphabet
+	AI int `json:"ai,omitempty"`
+	AJ int `json:"aj,omitempty"`
 
 	Detail string `json:"detail,omitempty"` // filled in when a violation is reported
 }
@@ -204,9 +208,29 @@ func reportViolations(c *ev.Ctx) {
 	vioAll = map[string]*vrec{}
 }
 
+// allowedObservations: the exact classes of behaviour on which the property
+// statement is silent and which the unchanged tree shows. Anything else handed
+// to observe is a violation (no open-ended tolerance).
+//   - zero-length ASN.1Cert: RFC 6962 says <1..2^24-1>, the decoders return the
+//     empty certificate; re-serialising the returned value gives the same bytes, so
+//     "serialise canonically / deserialise to the same value" is not touched.
+//   - ECDSA signature followed by bytes after the SEQUENCE: ct.verifySignature
+//     tolerates and logs it ("Garbage following signature") by design.
+var allowedObservations = map[string]bool{
+	"ct.ReadMerkleTreeLeaf accepts a zero-length ASN.1Cert (RFC 6962: <1..2^24-1>); re-serialises to the same bytes":         true,
+	"ct.UnmarshalX509ChainArray accepts a zero-length ASN.1Cert (RFC 6962: <1..2^24-1>); re-serialises to the same bytes":    true,
+	"ct.UnmarshalPrecertChainArray accepts a zero-length ASN.1Cert (RFC 6962: <1..2^24-1>); re-serialises to the same bytes": true,
+	"ct.VerifySCTSignature accepts a strict DER ECDSA signature followed by further bytes (tolerated and logged by design: 'Garbage following signature')": true,
+	"ct.VerifySTHSignature accepts a strict DER ECDSA signature followed by further bytes (tolerated and logged by design: 'Garbage following signature')": true,
+}
+
 // observe records behaviour on which the property statement is silent (both
 // verdicts accepted); the first witness of each class goes into the evidence.
 func (r *R) observe(class string, cs *Case) {
+	if !allowedObservations[class] {
+		r.viol("behaviour outside the allow-listed observation classes: "+class, cs, "")
+		return
+	}
 	r.h["observed: "+class]++
 	if cs.heavy() || len(cs.Bytes) >= 2048 || len(cs.Sig) >= 2048 || len(cs.Ext) >= 2048 {
 		return
